@@ -92,6 +92,39 @@ def lzw_encode(data, rnd=None, clear_p=0.002):
     return lzw_pack(codes)
 
 
+def lzw_codes_full(data, hold):
+    """Code sequence of an encoder that fills the table up to its last entry, 4095 (ISO 32000-1 7.4.4.2), goes on using
+    the full table for `hold` more codes and only then writes a clear-table code."""
+    codes = [256]
+    tbl = {bytes([i]): i for i in range(256)}
+    nxt = 258
+    w = b""
+    since_full = 0
+    for byte in data:
+        c = bytes([byte])
+        if w + c in tbl:
+            w += c
+            continue
+        codes.append(tbl[w])
+        if nxt <= 4095:
+            tbl[w + c] = nxt
+            nxt += 1
+        else:
+            since_full += 1
+        w = c
+        if since_full > hold:
+            codes.append(tbl[w])
+            w = b""
+            codes.append(256)
+            tbl = {bytes([i]): i for i in range(256)}
+            nxt = 258
+            since_full = 0
+    if w:
+        codes.append(tbl[w])
+    codes.append(257)
+    return codes
+
+
 def lzw_codes(data):
     """Plain LZW code sequence (clear, codes..., EOD) for data (no extra clears)."""
     codes = [256]
